@@ -43,3 +43,12 @@ VARIANTS += [
                                               "    ext = os.path.splitext(path)[1].lower()\n\n    if ext == '.parquet':"), kind='refactor'),
     M('C17', 'refactor-ext-compare-casefold', E(PE, "if (ext.lower() in ('.csv'", "if (ext.casefold() in ('.csv'"), kind='refactor'),
 ]
+
+VARIANTS += [
+    M('C17', 'output-fields-default-empty-list', E(FL, "    parser.add_argument('--output-fields', nargs='*',\n", "    parser.add_argument('--output-fields', nargs='*', default=[],\n"),
+      rule='C17-DEFAULTS', key='detect::flags.output_fields::none-when-absent'),
+    M('C17', 'epsilon-default-zero', E(FL, "    parser.add_argument('-epsilon', '--epsilon', type=float,\n                        help='epsilon fuzziness')\n    return parser\n\n\ndef detect_parser",
+                                       "    parser.add_argument('-epsilon', '--epsilon', type=float, default=0.0,\n                        help='epsilon fuzziness')\n    return parser\n\n\ndef detect_parser"),
+      rule='C17-DEFAULTS', key='verify::flags.epsilon'),
+    M('C17', 'refactor-explicit-default-none', E(FL, "    parser.add_argument('--output-fields', nargs='*',\n", "    parser.add_argument('--output-fields', nargs='*', default=None,\n"), kind='refactor'),
+]
